@@ -168,7 +168,7 @@ def random_mask(rng, d, allow_open=True):
     return np.zeros(d, dtype=int)
 
 
-def static_system(rng, d=None, N=None, K=1, cellkind=None, poskind=None, frames=1, nmin=2, nmax=60, jitter=0.03):
+def static_system(rng, d=None, N=None, K=1, cellkind=None, poskind=None, frames=1, nmin=2, nmax=60, jitter=0.03, retype=False):
     """one random multi-frame static system; returns (Snapshots, info)."""
     d = d or int(rng.choice([2, 3]))
     cellkind = cellkind or str(rng.choice(["ortho", "ortho", "tri+", "tri-", "tri"]))
@@ -181,7 +181,8 @@ def static_system(rng, d=None, N=None, K=1, cellkind=None, poskind=None, frames=
     snaps = []
     for t in range(frames):
         f = (f0 + (rng.normal(0, jitter, f0.shape) if t else 0.0)) % 1.0
-        snaps.append(snapshot_from(cell, f, types, timestep=1000 * t))
+        tt = types if (t == 0 or not retype) else types[rng.permutation(N)]   # swap moves: same composition, other ids
+        snaps.append(snapshot_from(cell, f, tt, timestep=1000 * t))
     info = {"d": d, "N": N, "K": int(len(np.unique(types))), "cell": cellkind, "pos": poskind, "frames": frames,
             "H": cell["H"], "origin": cell["origin"]}
     return snapshots_from(snaps), info, cell
